@@ -78,6 +78,8 @@ def case_st(maxn):
             "meta": st.sampled_from(METAS),
             "tls": st.sampled_from(["1.3", "1.2"]),
             "status": st.sampled_from([20, 20, 20, 21, 25, 29]),   # every 2x status carries a body
+            # the response object also carries the fields a fetched-and-edited page has (url, raw_body of the original)
+            "fetched": st.sampled_from([False, False, True]),
         })
     return build
 
@@ -99,7 +101,8 @@ def run_mem(case: dict):
     want = hdr + body
 
     def handler(req):
-        return GeminiResponse(status=case.get("status", 20), meta=case["meta"], body=body.decode("utf-8") if as_str else body)
+        extra = {"url": "gemini://origin.example/page", "raw_body": b"STALE ORIGINAL BYTES " * 3} if case.get("fetched") else {}
+        return GeminiResponse(status=case.get("status", 20), meta=case["meta"], body=body.decode("utf-8") if as_str else body, **extra)
 
     streams = {}
     infos = {}
@@ -368,6 +371,107 @@ def run_live(case: dict):
     return ok(total=len(want))
 
 
+# ------------------------------------------------------------------ real start_server on loopback, a reader that pauses for real
+
+_live_ss: dict = {}
+
+
+def _live_start_server_port(backend: str):
+    """The production entry point (start_server) on a real socket, static 6 MiB file."""
+    if backend in _live_ss:
+        return _live_ss[backend]
+    import os
+    import socket
+    import time
+    from pathlib import Path
+
+    from nauyaca.server import server as srv
+    from nauyaca.server.config import ServerConfig
+    from nauyaca.server.middleware import CertificateAuthConfig, CertificateAuthPathRule
+    from vlib import livenet, scratch
+
+    setup_logging()
+    srv.print = lambda *a, **k: None
+    c = certs.get("rsa-a")
+    root = scratch.subdir("c06-live-root")
+    body = make_body(6 * 1024 * 1024, "pattern", 0)
+    with open(os.path.join(root, "big.gmi"), "wb") as f:
+        f.write(body)
+    port = livenet.free_port()
+    cfg = ServerConfig(host="127.0.0.1", port=port, document_root=root, certfile=c.cert_path, keyfile=c.key_path)
+    kw = {}
+    if backend == "pyopenssl":
+        kw["certificate_auth_config"] = CertificateAuthConfig(path_rules=[CertificateAuthPathRule(prefix="/admin/", require_cert=True)])
+
+    async def run():
+        await srv.start_server(cfg, log_file=Path("/dev/null"), enable_rate_limiting=False, **kw)
+
+    livenet.bg().start_task(run)
+    for _ in range(200):
+        try:
+            socket.create_connection(("127.0.0.1", port), timeout=0.5).close()
+            break
+        except OSError:
+            time.sleep(0.05)
+    _live_ss[backend] = (port, body)
+    return _live_ss[backend]
+
+
+def enum_live_pause(tier):
+    for backend in ("stdlib", "pyopenssl"):
+        yield {"backend": backend, "pause": 12.0}
+        if tier == "thorough":
+            yield {"backend": backend, "pause": 25.0}
+
+
+def run_live_pause(case: dict):
+    """A client with a small receive buffer reads a little, does nothing for `pause` real seconds (it is alive: its TCP
+    stack keeps answering window probes), then reads on: the whole body must still arrive."""
+    import socket
+    import ssl
+    import time
+
+    from vlib.core import HarnessError
+
+    port, body = _live_start_server_port(case["backend"])
+    want = b"20 text/gemini\r\n" + body
+    raw = socket.socket()
+    raw.setsockopt(socket.SOL_SOCKET, socket.SO_RCVBUF, 32 * 1024)
+    raw.settimeout(60)
+    raw.connect(("127.0.0.1", port))
+    got = bytearray()
+    err = None
+    try:
+        s = memnet.permissive_client_ctx().wrap_socket(raw, server_hostname="localhost", suppress_ragged_eofs=False)
+        s.sendall(b"gemini://localhost/big.gmi\r\n")
+        while len(got) < 65536:
+            d = s.recv(16384)
+            if not d:
+                break
+            got += d
+        time.sleep(case["pause"])
+        t_end = time.monotonic() + 120
+        while True:
+            if time.monotonic() > t_end:
+                raise HarnessError("live pause fetch exceeded its wall-clock safety margin")
+            try:
+                d = s.recv(1 << 16)
+            except ssl.SSLZeroReturnError:
+                break
+            except (ssl.SSLError, OSError) as e:
+                err = repr(e)
+                break
+            if not d:
+                break
+            got += d
+    finally:
+        raw.close()
+    if bytes(got) != want:
+        return viol("stream-differs", f"live {case['backend']} via start_server, reader paused {case['pause']} s mid-body: expected {len(want)} bytes, "
+                    f"got {len(got)}; {err}", backend=case["backend"])
+    return ok(total=len(want))
+
+
 def _near_boundary(total_body):
     return any(abs(total_body - b) <= 2 for b in BOUNDARIES) or any(abs(total_body % 16384) <= 2 or 16384 - (total_body % 16384) <= 2 for _ in [0])
 
@@ -399,6 +503,11 @@ def _bucket(case, v):
 
 
 LANES = [
+    Lane(name="live-pause", run_case=run_live_pause, enumerate=enum_live_pause, budget={"quick": 1, "thorough": 1},
+         shards={"quick": 2, "thorough": 4}, nontrivial=lambda c, v: True, labels=lambda c, v: [c["backend"], "pause:%d" % c["pause"]],
+         exhaustive=True,
+         rule="real start_server on loopback (both backends), 6 MiB static file, client with a 32 KiB receive buffer that "
+              "pauses 12 s (thorough: also 25 s) of real time mid-body and then reads on"),
     Lane(name="static-history", run_case=run_history, strategy=history_case_st, budget={"quick": 1600, "thorough": 30000},
          shards={"quick": 16, "thorough": 32},
          nontrivial=lambda c, v: any(s["mtime"] in ("same", "older", "much-older") for s in c["steps"][1:]),
